@@ -1,0 +1,1 @@
+//! Hooks for property C12 (empty until needed).
